@@ -1,6 +1,12 @@
 pub mod common;
 pub mod c01;
 pub mod c02;
+pub mod c03;
+pub mod c04;
+pub mod c05;
+pub mod c06;
+pub mod c07;
+pub mod c08;
 pub mod c09;
 pub mod c10;
 pub mod c11;
@@ -8,6 +14,9 @@ pub mod c12;
 pub mod c13;
 pub mod c14;
 pub mod c15;
+pub mod c16;
+pub mod c17;
+pub mod c18;
 pub mod c19;
 pub mod c20;
 
@@ -18,6 +27,12 @@ pub fn run(ctx: &Ctx) -> Option<Report> {
     Some(match ctx.id.as_str() {
         "C01" => c01::run(ctx),
         "C02" => c02::run(ctx),
+        "C03" => c03::run(ctx),
+        "C04" => c04::run(ctx),
+        "C05" => c05::run(ctx),
+        "C06" => c06::run(ctx),
+        "C07" => c07::run(ctx),
+        "C08" => c08::run(ctx),
         "C09" => c09::run(ctx),
         "C10" => c10::run(ctx),
         "C11" => c11::run(ctx),
@@ -25,6 +40,9 @@ pub fn run(ctx: &Ctx) -> Option<Report> {
         "C13" => c13::run(ctx),
         "C14" => c14::run(ctx),
         "C15" => c15::run(ctx),
+        "C16" => c16::run(ctx),
+        "C17" => c17::run(ctx),
+        "C18" => c18::run(ctx),
         "C19" => c19::run(ctx),
         "C20" => c20::run(ctx),
         _ => return None,
@@ -35,6 +53,12 @@ pub fn replay(ctx: &Ctx, v: &Value) -> Option<bool> {
     Some(match ctx.id.as_str() {
         "C01" => c01::replay(ctx, v),
         "C02" => c02::replay(ctx, v),
+        "C03" => c03::replay(ctx, v),
+        "C04" => c04::replay(ctx, v),
+        "C05" => c05::replay(ctx, v),
+        "C06" => c06::replay(ctx, v),
+        "C07" => c07::replay(ctx, v),
+        "C08" => c08::replay(ctx, v),
         "C09" => c09::replay(ctx, v),
         "C10" => c10::replay(ctx, v),
         "C11" => c11::replay(ctx, v),
@@ -42,6 +66,9 @@ pub fn replay(ctx: &Ctx, v: &Value) -> Option<bool> {
         "C13" => c13::replay(ctx, v),
         "C14" => c14::replay(ctx, v),
         "C15" => c15::replay(ctx, v),
+        "C16" => c16::replay(ctx, v),
+        "C17" => c17::replay(ctx, v),
+        "C18" => c18::replay(ctx, v),
         "C19" => c19::replay(ctx, v),
         "C20" => c20::replay(ctx, v),
         _ => return None,
